@@ -146,13 +146,17 @@ package jrpc2
 // ---------------------------------------------------------------------------
 
 // An Assigner is pure in its arguments for the duration of a call (DESIGN 6.3):
-// assignerResult(a, method) is what a.Assign(ctx, method) returns.
+// assignerResult(a, req, method) is what a.Assign(ctx, method) returns, where
+// req = inboundOf(ctx) is the inbound request the context carries (an assigner
+// may decide by it, so two requests naming the same method need not get the
+// same handler).
 // assignCalls counts, per thread, the Assign invocations.
-//@ spec assignerResult(Iface, Str) Int
+//@ spec assignerResult(Iface, Iface, Str) Int
+//@ pure inboundOf(ctx Iface) Iface = ctxValue(ctx, boxof(0, "jrpc2.inboundRequestKey"))
 //@ tlghost assignCalls Int
 //@ iface Assigner.Assign
 //@   modifies assignCalls
-//@   ensures result == assignerResult(self, arg1) && assignCalls == old(assignCalls) + 1
+//@   ensures result == assignerResult(self, inboundOf(arg0), arg1) && assignCalls == old(assignCalls) + 1
 
 //@ role field Server.newctx
 //@   ensures result != nil
@@ -175,7 +179,7 @@ package jrpc2
 //@   ensures[C17:reserved] s.builtin && rpcPrefix(name) && name != "rpc.serverInfo" ==> result == nil
 //@   ensures[C17:serverinfo] s.builtin && name == "rpc.serverInfo" ==> result != nil
 //@   ensures[C17:withheld] s.builtin && rpcPrefix(name) ==> assignCalls == old(assignCalls)
-//@   ensures[C17:passthrough] !(s.builtin && rpcPrefix(name)) ==> result == assignerResult(s.mux, name) && assignCalls == old(assignCalls) + 1
+//@   ensures[C17:passthrough] !(s.builtin && rpcPrefix(name)) ==> result == assignerResult(s.mux, inboundOf(ctx), name) && assignCalls == old(assignCalls) + 1
 
 // The context handed to assigner and handler carries the inbound request.
 // The key types are private to this package: only this package stores values
@@ -490,6 +494,7 @@ package jrpc2
 //@   ensures[C07:nothing-fired-of-others] forall(f Int, (exists(k string, old(in(s.used, k)) && old(lookup(s.used, k)) == f)) ==> fired(f) == old(fired(f)))
 //@   ensures[C07:reserved-only-for-runnable] forall(k string, in(s.used, k) && !old(in(s.used, k)) ==> exists(j int, 0 <= j && j < len(result) && result[j].m != nil && result[j].err == nil && str(result[j].hreq.id) == k))
 //@   ensures[C07:inv] Server_mu_inv(s)
+//@   ensures[C17:own-handler] forall(i int, 0 <= i && i < len(result) && result[i].m != nil && !(s.builtin && rpcPrefix(result[i].hreq.method)) ==> result[i].m == assignerResult(s.mux, boxof(result[i].hreq, "*jrpc2.Request"), result[i].hreq.method))
 //@   loop 1 invariant len(ts) == rangeindex + 1 && len(ids) == len(ts)
 //@   loop 1 invariant forall(j int, 0 <= j && j < len(ts) ==> ids[j] == str(ts[j].hreq.id))
 //@   loop 1 invariant forall(j int, 0 <= j && j < len(ts) ==> ts[j] != nil && isnew(ts[j]) && allocated(ts[j]) && ts[j].hreq != nil && allocated(ts[j].hreq) && isnew(ts[j].hreq) && ts[j].m == nil)
@@ -504,6 +509,7 @@ package jrpc2
 //@   loop 2 invariant forall(j int, 0 <= j && j < len(ts) ==> (next[j].err != nil ==> ts[j].err != nil) && validErr(ts[j].err))
 //@   loop 2 invariant forall(j int, 0 <= j && j <= rangeindex ==> taskOK(ts[j]) && (next[j].err != nil || next[j].M == "" ==> ts[j].m == nil))
 //@   loop 2 invariant forall(j int, rangeindex < j && j < len(ts) ==> ts[j].m == nil)
+//@   loop 2 invariant forall(j int, 0 <= j && j <= rangeindex && ts[j].m != nil && !(s.builtin && rpcPrefix(ts[j].hreq.method)) ==> ts[j].m == assignerResult(s.mux, boxof(ts[j].hreq, "*jrpc2.Request"), ts[j].hreq.method))
 //@   loop 2 invariant forall(j int, 0 <= j && j < len(ts) ==> ids[j] == str(ts[j].hreq.id))
 //@   loop 2 invariant forall(k string, in(s.used, k) && !old(in(s.used, k)) ==> exists(j int, 0 <= j && j <= rangeindex && ts[j].m != nil && ts[j].err == nil && ids[j] == k))
 //@   loop 2 invariant forall(j1 int, j2 int, 0 <= j1 && j1 < j2 && j2 < len(ts) ==> ts[j1] != ts[j2])
